@@ -105,6 +105,11 @@ inductive Gate | noData | encoding | size (cw : Cmp) (conn : Conn) (ch : Cmp) | 
     ` + "`vx.graphicsLast = vx.graphicsNext`" + `; anything else is ` + "`other`" + `. -/
 inductive RStage | deleteLoop | clearLast | writeLoop | saveLast | other
   deriving DecidableEq, Repr
+/-- What Window.Clear does to the next-frame placement list (round 4): assigns a fresh empty list
+    (` + "`[]*placement{}`" + ` / ` + "`nil`" + ` / ` + "`make([]*placement, 0)`" + `), re-slices the old one (` + "`…[:0]`" + `: the backing array stays shared with
+    the saved list), does not assign it at all, or something else. -/
+inductive ClearForm | fresh | reslice | missing | other
+  deriving DecidableEq, Repr
 /-- One simple statement of the kitty upload code (round 4): ` + "`atomicStore(&k.uploaded, v)`" + `; the chunking loop that
     appends the new encoding to ` + "`k.buf`" + ` (` + "`for buf.Len() > 0 { … fmt.Fprintf(k.buf, …) }`" + `); ` + "`w.Write(k.buf.Bytes())`" + `;
     ` + "`k.buf.Reset()`" + `; the ` + "`a=p`" + ` command (` + "`fmt.Fprintf(w, \"…a=p…\", k.id, pid)`" + `); anything else that mentions
@@ -850,6 +855,31 @@ func gen(c *ex.Ctx) {
 	fmt.Fprintf(&sb, "\n/-- the placement loops of (*Vaxis).render. -/\ndef renderShape : RenderShape := %s\n", renderShape(c))
 	fmt.Fprintf(&sb, "\n/-- the top-level statements of that stretch of render, in source order. -/\ndef renderOrder : List RStage := [%s]\n",
 		strings.Join(renderOrder(c), ", "))
+
+	// ---- Window.Clear: what it does to vx.graphicsNext
+	clearForm := ".missing"
+	if wf := c.Parse("window.go"); wf != nil {
+		if fd := ex.FindFunc(wf, "Window", "Clear"); fd != nil && fd.Body != nil {
+			ast.Inspect(fd.Body, func(n ast.Node) bool {
+				as, ok := n.(*ast.AssignStmt)
+				if !ok || len(as.Lhs) != 1 || len(as.Rhs) != 1 || !strings.HasSuffix(src(c, as.Lhs[0]), ".graphicsNext") {
+					return true
+				}
+				switch rhs := strings.ReplaceAll(src(c, as.Rhs[0]), " ", ""); {
+				case as.Tok != token.ASSIGN:
+					clearForm = ".other"
+				case rhs == "[]*placement{}" || rhs == "nil" || rhs == "make([]*placement,0)":
+					clearForm = ".fresh"
+				case strings.HasSuffix(rhs, ".graphicsNext[:0]"):
+					clearForm = ".reslice"
+				default:
+					clearForm = ".other"
+				}
+				return true
+			})
+		}
+	}
+	fmt.Fprintf(&sb, "\n/-- Window.Clear: what it assigns to the next-frame placement list. -/\ndef clearPlacements : ClearForm := %s\n", clearForm)
 
 	// ---- the kitty upload code, structured (interpreted by Model/KittyTerm.lean)
 	fmt.Fprintf(&sb, "\n/-- KittyImage.Resize, the goroutine: every statement that touches k.uploaded or k.buf, in source order. -/\ndef kittyResizeBody : List KStmt := [%s]\n",
